@@ -27,7 +27,27 @@ var likeAlphabet = []string{"a", "b", "c", "A", "B", "C", "x", "Z", "0", "1", " 
 var likeMeta = []string{".", "*", "+", "?", "(", ")", "[", "]", "{", "}", "^", "$", "\\", ".*", "[a-c]", "(a|b)", "\\d", "a+",
 	"\\$", "\\^", "\\.", "\\(", "\\\\", "\\w+", "\\x{e9}", "(?s).", "\\pL", "$", "^"}
 
+// letters whose upper-case form is one byte longer / shorter in UTF-8
+var likeExpanders = []string{"ɐ", "ɑ", "ɫ", "ɽ", "ȿ", "ɀ", "ɒ", "ɜ"}
+var likeShrinkers = []string{"ı", "ſ", "ⱥ", "ⱦ", "ι"}
+
 func genLikeCell(t *rapid.T) string {
+	if rapid.IntRange(0, 5).Draw(t, "runcell") == 0 {
+		// a run of letters that all grow (or all shrink) when upper-cased, then a plain tail: the converted text
+		// outgrows the few spare bytes of the conversion buffer exactly where the tail starts
+		pool := likeExpanders
+		if rapid.IntRange(0, 3).Draw(t, "shrink") == 0 {
+			pool = likeShrinkers
+		}
+		var sb strings.Builder
+		sb.WriteString(rapid.SampledFrom([]string{"", "", "a", "Zz", "é"}).Draw(t, "runhead"))
+		k := rapid.IntRange(1, 9).Draw(t, "runlen")
+		for i := 0; i < k; i++ {
+			sb.WriteString(rapid.SampledFrom(pool).Draw(t, "runch"))
+		}
+		sb.WriteString(rapid.SampledFrom([]string{"", "a", "ab", "abc", "abcd", "abcde", "abcdefgh", "xé", "0123456789", "b日c"}).Draw(t, "runtail"))
+		return sb.String()
+	}
 	n := rapid.IntRange(0, 14).Draw(t, "celllen")
 	var sb strings.Builder
 	for i := 0; i < n && sb.Len() < 40; i++ {
